@@ -160,8 +160,24 @@ def check(run):
     rn, rparked, rnev, rval, rrej, rts = racelib.check_family(run, "C07", v, keep=lambda s: any(o.get('r') for o in _pubs(s)))
     validated += rval
     tstates += rts
+    # the retained store behind the replicated state after lost gossip: nodes that missed broadcasts are repaired by full-state
+    # exchanges whose batches list entries they hold already next to entries they lack (replays on every node come from this store)
+    from checks import crdtlib
+    vals = crdtlib.MAPS["ret"]["vals"]
+    rs = crdtlib.gen(run, "c07lost", "ret", [1, 2], ["k1", "k2"], vals[:1], 3, 3, 0, 0, [1, 2], True)
+    rs += crdtlib.gen(run, "c07part", "ret", [1, 2], ["k1", "k2", "k3"], vals[:1], 4, 8, 2, 2, [1, 2], True, simulate="num=%d" % (400 if thorough else 30))
+    for i, s_ in enumerate(rs):
+        s_["ops"] = s_["ops"] + [{"op": "push", "from": 1, "to": 2}, {"op": "push", "from": 2, "to": 1}, {"op": "push", "from": 1, "to": 9}]
+    rtp = crdtlib.execute(run, rs, "c07")
+    rnev2, rval2, rrej2, rts2 = crdtlib.validate(run, "C07", rs, rtp, v)
+    run.log("retained store after lost gossip + full-state exchanges: %d histories, %d rejected" % (len(rs), len(rrej2)))
+    validated += rval2
+    tstates += rts2
     rc = v.finish()
     vlib.write_evidence(run, {
+        "after_lost_gossip": {"histories": len(rs), "events": rnev2, "rejections": len(rrej2),
+                              "rule": "TLC-generated histories of retained writes on two nodes with all or part of the gossip lost, then full-state exchanges both ways "
+                                      "and into a fresh node; CrdtTrace.tla: every listing is the newest entry per topic"},
         "broker_level_scenarios": len(bscns), "broker_level_events": bnev,
         "overlapping_operations": {"interleavings": rn, "parked_at_their_gate": rparked, "events": rnev, "rejections": rrej,
                                    "rule": "one client operation (SUBSCRIBE / UNSUBSCRIBE / PUBLISH) is parked at a scheduler gate at a replicated-state call "
@@ -189,6 +205,9 @@ def replay(run, path):
         return brokerlib.replay(run, "C07", path)
     if rp.get("kind") == "race":
         return racelib.replay(run, "C07", path)
+    if rp.get("kind") == "crdt" or "map" in rp.get("scenario", {}):
+        from checks import crdtlib
+        return crdtlib.replay(run, "C07", path)
     spath = os.path.join(run.scratch, "scenarios.ndjson")
     with open(spath, "w") as f:
         f.write(json.dumps(rp["scenario"]) + "\n")
